@@ -563,6 +563,14 @@ func (e *Env) call(x *ECall) SVal {
 			return iv(app(SInt, "uf_stwidth", e.eval(args[0]).T))
 		}
 		return bv(app(SBool, "uf_stwidth_ok", e.eval(args[0]).T))
+	case "istr":
+		// istr(x): the string held by the interface value x (known where the code wrapped a string in it)
+		need(1)
+		if !e.g.declared["uf_ifstr"] {
+			e.g.declared["uf_ifstr"] = true
+			e.g.decls = append(e.g.decls, "(declare-fun uf_ifstr (Int) Int)")
+		}
+		return iv(app(SInt, "uf_ifstr", e.eval(args[0]).T))
 	case "now":
 		// now(p): the current value of a parameter that the code reassigns (in ghost assertions at call sites and in loop
 		// clauses; the plain name is the value at entry)
